@@ -174,6 +174,11 @@ def run(chk):
     structural.run(chk, "names", provenance, names)
     frame_check(chk)
     anon_var_contract(chk)
+    # "so user variables keep their values across compiled constructs": semantic clause, with let-bound variables
+    # (whose Python names are _hy_-prefixed, like the compiler's temporaries) as operands of every sequential construct
+    from hv import rules, uservars
+    from hv.replay import replay_mismatch
+    rules.run_cases(chk, uservars.cases(), prefix="keep", replay_fn=replay_mismatch)
     try:
         from hv.pyvc import k1
         k1.add(chk)
